@@ -200,9 +200,20 @@ def simpleText (k : Kind) (v : V) : Outcome (List Char) :=
 
 /-! ### Marshal -/
 
-mutual
+/-- the name under which a type has a custom printer / parser -/
+def customM (s : Schema) (ty : LtType) : Option String :=
+  match headName ty with | some n => if s.marshalers.contains n then some n else none | none => none
+
+def customU (s : Schema) (ty : LtType) : Option String :=
+  match headName ty with | some n => if s.unmarshalers.contains n then some n else none | none => none
+
+def isSimple : Kind → Bool
+  | .int | .float | .bool | .string => true
+  | _ => false
+
 /-- `printer.marshalValue` for a field (or slice element) of static type `ty` named `name`: the
-    elements it prints, as trees (a leaf carries character data, a node child elements) -/
+    elements it prints, as trees (a leaf carries character data, a node child elements).  The
+    fuel bounds the nesting depth. -/
 def marshalTrees (s : Schema) : Nat → String → Bool → LtType → V → Outcome (List Xml.Tree)
   | 0, _, _, _, _ => .unmodelled
   | fuel + 1, name, om, ty, v =>
@@ -212,37 +223,26 @@ def marshalTrees (s : Schema) : Nat → String → Bool → LtType → V → Out
     | .ptr _, .nil => .ok []
     | .ptr t', .ptr v' => marshalTrees s fuel name false t' v'    -- omitempty was decided on the pointer
     | _, _ =>
-      match headName ty with
-      | some n =>
-        if s.marshalers.contains n then
-          (customText s n v).map fun t => [Xml.Tree.leaf name [] t]
-        else marshalPlainT s fuel name om k v
-      | none => marshalPlainT s fuel name om k v
-
-def marshalPlainT (s : Schema) : Nat → String → Bool → Kind → V → Outcome (List Xml.Tree)
-  | 0, _, _, _, _ => .unmodelled
-  | fuel + 1, name, om, k, v =>
-    match k, v with
-    | .slice t', .list vs => (vs.mapM fun e => marshalTrees s fuel name om t' e).map List.flatten
-    | .structT n, .struct fs =>
-      match s.fieldsOf n with
-      | none => .unmodelled
-      | some fields =>
-        let dfs := dataFields fields
-        if dfs.length ≠ fs.length then .unmodelled else
-        let pairs := dfs.zip fs
-        do
-          let attrs ← (pairs.filter (·.1.attr)).mapM fun (f, fv) =>
-            let fk := kindOf s 8 f.typ
-            if f.omitempty && isEmptyValue fk fv then Outcome.ok ([] : List (String × List Char))
-            else (simpleText fk fv).map fun t => [(f.xmlName, t)]
-          let kids ← (pairs.filter (fun p => !p.1.attr)).mapM fun (f, fv) =>
-            marshalTrees s fuel f.xmlName f.omitempty f.typ fv
-          .ok [Xml.Tree.node name attrs.flatten kids.flatten]
-    | .unknown, _ => .unmodelled
-    | .unit, _ => .unmodelled
-    | _, _ => (simpleText k v).map fun t => [Xml.Tree.leaf name [] t]
-end
+      match customM s ty with
+      | some n => (customText s n v).map fun t => [Xml.Tree.leaf name [] t]
+      | none =>
+        match k, v with
+        | .slice t', .list vs => (vs.mapM fun e => marshalTrees s fuel name om t' e).map List.flatten
+        | .structT n, .struct fs =>
+          match s.fieldsOf n with
+          | none => .unmodelled
+          | some fields =>
+            let dfs := dataFields fields
+            if dfs.length ≠ fs.length then .unmodelled else
+            let pairs := dfs.zip fs
+            ((pairs.filter (·.1.attr)).mapM fun (p : LtField × V) =>
+                let fk := kindOf s 8 p.1.typ
+                if p.1.omitempty && isEmptyValue fk p.2 then Outcome.ok ([] : List (String × List Char))
+                else (simpleText fk p.2).map fun t => [(p.1.xmlName, t)]).bind fun attrs =>
+              ((pairs.filter (fun p => !p.1.attr)).mapM fun (p : LtField × V) =>
+                  marshalTrees s fuel p.1.xmlName p.1.omitempty p.1.typ p.2).map fun kids =>
+                [Xml.Tree.node name attrs.flatten kids.flatten]
+        | _, _ => if isSimple k then (simpleText k v).map fun t => [Xml.Tree.leaf name [] t] else .unmodelled
 
 /-- the token stream the printer is fed -/
 def marshalValue (s : Schema) (fuel : Nat) (name : String) (om : Bool) (ty : LtType) (v : V) :
